@@ -308,6 +308,7 @@ package sql
 //@   modifies c.xaActive, c.xaBranchXid, c.branchRegisterTime, c.prepareTime, c.isConnKept, syncmap(c.Conn.res, "keeper"), ghost.xa_state, ghost.xa_illegal, ghost.xa_end_tried, ghost.xa_mismatch, ghost.dtx
 //@   ensures legal: !ghost.xa_illegal && !ghost.xa_mismatch
 //@   ensures end-then-rollback: live && result == nil ==> ghost.xa_state == 5
+//@   ensures end-attempted: live ==> ghost.xa_end_tried
 //@   ensures never-commits: live ==> ghost.xa_state != 3 && ghost.xa_state != 4
 //@   let auto := c.Conn.autoCommit
 //@   let dead := !c.Conn.autoCommit && !(c.xaActive && c.xaBranchXid != nil)
@@ -341,11 +342,13 @@ package sql
 //@   let explicit := !c.Conn.autoCommit && c.xaActive && c.xaBranchXid != nil && !c.rollBacked
 //@   requires c.Conn.autoCommit ==> ghost.xa_state == 0 && !c.xaActive
 //@   requires explicit ==> c.xaResource != nil && c.tx != nil && ghost.xa_state == 1 && ghost.xa_id == id
-//@   requires !ghost.xa_illegal && !ghost.xa_mismatch && ghost.registers == 0 && ghost.f_calls == 0 && !c.rollBacked
+//@   requires !c.Conn.autoCommit && !explicit ==> ghost.xa_state != 1
+//@   requires !ghost.xa_illegal && !ghost.xa_mismatch && !ghost.xa_end_tried && ghost.registers == 0 && ghost.f_calls == 0 && !c.rollBacked
 //@   modifies heap.all, ghost.all
 //@   ensures legal: !ghost.xa_illegal && !ghost.xa_mismatch
 //@   ensures statement-runs-at-most-once: ghost.f_calls <= 1
 //@   ensures failed-statement-surfaces: ghost.f_calls == 1 && !ghost.f_ok ==> result1 != nil
+//@   ensures failed-statement-rolls-the-branch-back: ghost.f_calls == 1 && !ghost.f_ok && ghost.xa_state == 1 ==> ghost.xa_end_tried
 //@   ensures failed-statement-never-prepared: ghost.f_calls == 1 && !ghost.f_ok && (explicit || ghost.registers == 1) ==> ghost.xa_state != 3 && ghost.xa_state != 4
 //@   let auto := c.Conn.autoCommit
 //@   ensures success-means-prepared: auto && ghost.registers == 1 && ghost.reg_ok && result1 == nil ==> ghost.xa_state == 3 && ghost.f_ok
